@@ -16,6 +16,10 @@ ENTRY_PRELUDE = '''
         }
 '''
 
+# `V.extend_from_slice(&VALUE.to_be_bytes()[8 - WIDTH ..]);` -- V is given (a group or a back-reference); VALUE and WIDTH are the next two groups
+def be_col(v):
+    return (v + r'\s*\.\s*extend_from_slice\(\s*&\s*([^;]*?)\s*\.\s*to_be_bytes\(\)\s*\[\s*\(?\s*8(?:usize)?\s*-\s*((?:[^\];()]|\([^()]*\))+?)\s*\)?\s*\.\.\s*\]\s*\)\s*;')
+
 UNIT = {
  'name': 'xrefstm',
  'doc': 'Cross-reference stream section reader (big-endian fields, entry types) and writer (write_stream), and the writer->reader codec',
@@ -175,17 +179,22 @@ UNIT = {
          'replace': 'let __v = hoist_take(&self.entries, size); proof { lemma_eoff(0, 1 + a_w + b_w); } for __k in 0..__v.len() { let x = __v[__k]; '
                     'let ghost k = it.index@ as int; let ghost d0 = data@; proof { assert(x == self.entries@[k]); }'},
         {'rule': 'R1', 'find': 'data.push(t);', 'replace': 'data.push(t); let ghost d1 = data@;'},
-        {'rule': 'R7', 'find': 'data.extend_from_slice(&a.to_be_bytes()[8 - a_w ..]);',
-         'replace': 'hoist_be_tail(&mut data, a, a_w); let ghost d2 = data@;'},
-        {'rule': 'R7', 'find': 'data.extend_from_slice(&b.to_be_bytes()[8 - b_w ..]);',
-         'replace': 'hoist_be_tail(&mut data, b, b_w); '
-                    'proof { let d3 = data@; lemma_new_entry(d0, d1, d2, d3, k, t, a as nat, b as nat, a_w as int, b_w as int); '
+        # R7 by shape: the two field columns `V.extend_from_slice(&<value>.to_be_bytes()[8 - <width> ..]);` (consecutive statements, same
+        # Vec) -> `hoist_be_tail(&mut V, <value>, <width>)`: value and WIDTH expressions are the code's own, verbatim; the ghost text talks
+        # about the specification's widths (`a_w`, `b_w` of the invariants), so a column written with another width fails `ws_len_sofar`/`ws_sofar`
+        {'rule': 'R7', 'regex': be_col(r'(\w+)') + r'\s*' + be_col(r'\1'),
+         'replace': r'hoist_be_tail(&mut \1, \2, \3); let ghost d2 = \1@; hoist_be_tail(&mut \1, \4, \5); '
+                    # the hint is an `if` over what the two columns must have appended (never an assert / a lemma precondition of it):
+                    # a column of another width or value leaves the labelled invariants to fail
+                    'proof { let d3 = data@; if d2.len() == d1.len() + a_w && d3.len() == d2.len() + b_w '
+                    '&& be_val(d2.subrange(d1.len() as int, d2.len() as int)) == a as nat && be_val(d3.subrange(d2.len() as int, d3.len() as int)) == b as nat { '
+                    'lemma_new_entry(d0, d1, d2, d3, k, t, a as nat, b as nat, a_w as int, b_w as int); '
                     'assert(entry_at(d3, k, 1, a_w as int, b_w as int) == x); '
                     'assert(entry_type(d3, k, 1, a_w as int, b_w as int) == t); '
                     'assert forall|j: int| 0 <= j < k implies #[trigger] entry_at(d3, j, 1, a_w as int, b_w as int) == entry_at(d0, j, 1, a_w as int, b_w as int) by { '
                     'lemma_prefix_entry(d0, d3, j, k, a_w as int, b_w as int); } '
                     'assert forall|j: int| 0 <= j < k implies #[trigger] entry_type(d3, j, 1, a_w as int, b_w as int) == entry_type(d0, j, 1, a_w as int, b_w as int) by { '
-                    'lemma_entry_pos(j, k, 1 + a_w + b_w, d0.len() as int); lemma_prefix_field(d0, d3, eoff(j, 1 + a_w + b_w), 1); } }'},
+                    'lemma_entry_pos(j, k, 1 + a_w + b_w, d0.len() as int); lemma_prefix_field(d0, d3, eoff(j, 1 + a_w + b_w), 1); } } }'},
         {'rule': 'R1', 'find': 'let info = XRefInfo {',
          'replace': 'proof { assert(__v@.len() == size); lemma_eoff(size as int, 1 + a_w + b_w); } let info = XRefInfo {'},
      ]},
